@@ -41,8 +41,8 @@ ASSUMPTIONS = [
     "a quarter turn expressed in voxels is the affine map on voxel indices about the index centre (n-1)/2 (e.g. (i,j) -> (n-1-j, i)); in voxel centres and coordinates it is the rotation about the image centre",
 ]
 FLOORS = {
-    "quick": {"contract:rotation_state": 1500, "round_trip": 3000, "warp_exact": 500, "coordinate_transformation": 90, "parameter_update_histories": 1000, "mixed_kind_maps": 500},
-    "thorough": {"contract:rotation_state": 15000, "round_trip": 30000, "warp_exact": 5000, "coordinate_transformation": 900, "parameter_update_histories": 10000, "mixed_kind_maps": 5000},
+    "quick": {"parameter_containers_updated_in_place": 500, "contract:rotation_state": 1500, "round_trip": 3000, "warp_exact": 500, "coordinate_transformation": 90, "parameter_update_histories": 1000, "mixed_kind_maps": 500},
+    "thorough": {"parameter_containers_updated_in_place": 5000, "contract:rotation_state": 15000, "round_trip": 30000, "warp_exact": 5000, "coordinate_transformation": 900, "parameter_update_histories": 10000, "mixed_kind_maps": 5000},
 }
 SHARD_TIMEOUT = {"quick": 1500, "thorough": 6000}
 
@@ -160,6 +160,7 @@ def run_shard(spec, R):
         # through set_parameters; after each, the object must agree with a fresh object given all current parameters
         # at once, and remain a pair of mutual inverses
         cur = {"translation": t.copy(), "scaling": s, "rotation": ang.copy()}
+        own_bufs = {}
         for upd in range(int(rng.integers(1, 4))):
             which = [["scaling"], ["translation"], ["rotation"], ["translation", "scaling"], ["scaling"]][int(rng.integers(0, 5))]
             new = {}
@@ -169,10 +170,26 @@ def run_shard(spec, R):
                 new["translation"] = rng.uniform(-10, 10, size=dim)
             if "rotation" in which:
                 new["rotation"] = rng.uniform(-np.pi, np.pi, size=1 if dim == 2 else 3)
-            ok, _ = R.guarded("set_parameters", lambda: A.set_parameters(**{k: (v.copy() if hasattr(v, "copy") else v) for k, v in new.items()}))
+            # the caller keeps one array per kind of parameter, writes the new values into it and hands the very same
+            # object over again (every second history); otherwise fresh copies are passed
+            if n % 2 == 1:
+                passed = {}
+                for k, v in new.items():
+                    if hasattr(v, "copy"):
+                        if k not in own_bufs:
+                            own_bufs[k] = np.array(cur[k], float)
+                            R.guarded("set_parameters", lambda: A.set_parameters(**{k: own_bufs[k]}))  # first hand-over, current values
+                        own_bufs[k][...] = v
+                        passed[k] = own_bufs[k]
+                    else:
+                        passed[k] = v
+                R.count("parameter_containers_updated_in_place")
+            else:
+                passed = {k: (v.copy() if hasattr(v, "copy") else v) for k, v in new.items()}
+            ok, _ = R.guarded("set_parameters", lambda: A.set_parameters(**passed))
             if not ok:
                 break
-            cur.update(new)
+            cur.update({k: (v.copy() if hasattr(v, "copy") else v) for k, v in new.items()})
             F = darsia.AffineTransformation(dim)
             F.set_parameters(translation=np.array(cur["translation"], float), scaling=cur["scaling"], rotation=np.array(cur["rotation"], float))
             if typed:
